@@ -118,7 +118,29 @@ struct Doc {
 
 /// Seed-independent directed documents for productions that are known to fail
 /// (each one is a recorded finding; the random profile does not draw them).
-const DIRECTED: [(&str, &str, &str); 2] = [
+const DIRECTED: [(&str, &str, &str); 6] = [
+    // documents with an empty key are expected to build and type-check: shapes that a
+    // random document only contains by chance, present in every run by construction
+    (
+        "double_keys",
+        "",
+        "struct D {\n  1: set<double> a = [1, 2.5],\n  2: map<double, string> b = {1: \"x\", 2.5: \"y\"},\n  3: list<double> c = [1, 2],\n  4: optional map<double, list<double>> d = {3: [4]},\n  5: double e = 7,\n}\nconst set<double> CS = [1, 2]\nconst map<double, i32> CM = {1: 2}\n",
+    ),
+    (
+        "boxed_literal",
+        "",
+        "struct N {\n  1: optional N next,\n  2: i32 v,\n  3: list<N> kids,\n}\nstruct H {\n  1: N head = {\"next\": {\"v\": 2, \"next\": {\"v\": 3}}, \"v\": 1},\n  2: optional N tail = {\"next\": {\"v\": 5}},\n  3: required N third = {\"v\": 6, \"kids\": [{\"v\": 7}]},\n}\n",
+    ),
+    (
+        "triple_collision",
+        "",
+        "typedef i16 aB\nstruct AB {\n  1: i32 x,\n}\nstruct Ab {\n  1: AB y,\n  2: aB z,\n}\nenum fooBar {\n  A = 1,\n}\nstruct FooBar {\n  1: fooBar f,\n}\nstruct foo_bar {\n  1: FooBar g,\n  2: Foo_Bar h,\n}\ntypedef string Foo_Bar\nconst i32 getURL = 1\nconst i32 get_url = 2\nconst i32 GetUrl = 3\nconst i32 GET_URL = 4\nservice Svc {\n  AB getUrl(1: Ab get_url, 2: aB GetUrl),\n  void get_url(1: foo_bar a),\n  void GetURL(),\n}\n",
+    ),
+    (
+        "typedef_defaults",
+        "",
+        "const i32 CI = 5\nconst string CSV = \"v\"\nenum E {\n  A = 1,\n  B = 2,\n}\ntypedef i32 T1\ntypedef T1 T2\ntypedef string TS\ntypedef E TE\ntypedef list<T2> TL\ntypedef bool TB\nstruct S {\n  1: T1 a = CI,\n  2: optional T2 b = CI,\n  3: required T2 c = 9,\n  4: TS d = CSV,\n  5: TE e = E.B,\n  6: TL f = [1, CI],\n  7: TB g = true,\n  8: optional TB h = 1,\n  9: TE i = 2,\n}\nunion U {\n  1: TB flag,\n  2: T2 n,\n}\n",
+    ),
     (
         "prelude",
         "c14|thrift|idl-name-shadows-unqualified-prelude-item",
@@ -137,7 +159,7 @@ fn make_directed(root: &Path, k: usize) -> Doc {
     write_if_changed(&dir.join("idl").join("c0.thrift"), idl);
     let mut schema = Schema::default();
     schema.files.push(refmodel::schema::FileInfo { stem: "c0".into(), namespace: None, includes: vec![] });
-    Doc { name: format!("directed_{}", name), schema, dir, collapse: Some(key), raw_idl: Some(idl), proto: None }
+    Doc { name: format!("directed_{}", name), schema, dir, collapse: if key.is_empty() { None } else { Some(key) }, raw_idl: Some(idl), proto: None }
 }
 
 fn make_doc(root: &Path, area: &str, name: &str, seed: u64, profile: &str, hostile: bool) -> Doc {
@@ -161,11 +183,18 @@ fn make_proto_doc(root: &Path, area: &str, name: &str, seed: u64, proto3: bool) 
     Doc { name: name.to_string(), schema, dir, collapse: None, raw_idl: None, proto: Some(ps) }
 }
 
-const DIRECTED_PROTO: [(&str, &str, &str); 1] = [(
+const DIRECTED_PROTO: [(&str, &str, &str); 2] = [
+    (
+        "no_package",
+        "",
+        "syntax = \"proto3\";\nmessage A {\n  message B {\n    int32 x = 1;\n    enum K {\n      K0 = 0;\n      K1 = 1;\n    }\n    K k = 2;\n  }\n  B b = 1;\n  repeated B bs = 2;\n  map<string, B> m = 3;\n  oneof o {\n    B ob = 4;\n    string os = 5;\n  }\n}\nmessage C {\n  A a = 1;\n  A.B ab = 2;\n  A.B.K k = 3;\n}\n",
+    ),
+    (
     "oneof_recursion",
     "c14|proto|message-recursive-through-oneof",
     "syntax = \"proto3\";\npackage p0;\nmessage Node {\n  oneof kind {\n    int32 leaf = 2;\n    Node child = 3;\n  }\n}\nmessage Tree {\n  Node root = 1;\n}\n",
-)];
+    ),
+];
 
 fn make_directed_proto(root: &Path, k: usize) -> Doc {
     let (name, key, idl) = DIRECTED_PROTO[k];
@@ -175,7 +204,7 @@ fn make_directed_proto(root: &Path, k: usize) -> Doc {
     schema.files.push(refmodel::schema::FileInfo { stem: "c0".into(), namespace: None, includes: vec![] });
     // a marker schema so that run_pbuild takes the protobuf path
     let ps = refmodel::pb::PSchema { proto3: true, package: None, msgs: vec![], enums: vec![], services: vec![] };
-    Doc { name: format!("directed_{}", name), schema, dir, collapse: Some(key), raw_idl: Some(idl), proto: Some(ps) }
+    Doc { name: format!("directed_{}", name), schema, dir, collapse: if key.is_empty() { None } else { Some(key) }, raw_idl: Some(idl), proto: Some(ps) }
 }
 
 struct BuildOut {
@@ -366,6 +395,12 @@ fn c14(ctx: &Ctx) -> i32 {
         // directed documents: plain single-file and case-conversion-off configurations
         pairs.push((d, 0));
         pairs.push((d, 2));
+        if docs[d].collapse.is_none() {
+            // expected to build: also keep_unknown_fields, split, split+keep, only-used
+            for c in [4, 8, 12, 1] {
+                pairs.push((d, c));
+            }
+        }
     }
     for d in 0..n_random {
         for j in 0..per_doc {
